@@ -259,6 +259,12 @@ func runC13(c *Ctx, i int, r *rand.Rand) {
 		return
 	}
 	c.Count(kind + "-observed")
+	mustPassThrough := !unknown
+	for _, k := range []string{"Grpc-Encoding", "Connect-Content-Encoding", "Content-Encoding", "Content-Type"} {
+		if _, ok := creq.App[k]; ok {
+			mustPassThrough = false
+		}
+	}
 	if len(before.Body) > 0 || len(creq.App) > 0 {
 		c.Nontrivial(fmt.Sprintf("%s|%s|%v|%s|%d", kind, form, sortedKeys(creq.App), bodyClass, len(before.Body)))
 	}
@@ -266,10 +272,15 @@ func runC13(c *Ctx, i int, r *rand.Rand) {
 		c.Violate(i, "forwarded-twice/"+kind, describe())
 	}
 	if _, isRec := down.w.(*Recorder); !isRec {
-		// the handler was reached through the transcoding path (e.g. the mutated path still matches a
-		// wildcard route): conversion is other properties' business
-		c.Count("transcoded-not-forwarded:" + kind)
-		return
+		// the handler was reached through the transcoding path. For a request whose triple the service accepts
+		// (and whose own compression header the extra headers did not touch) no conversion applies, so what the
+		// handler saw is compared all the same; otherwise (e.g. a mutated path that still matches a wildcard
+		// route, an added encoding header the service does not accept) conversion is other properties' business.
+		if !mustPassThrough {
+			c.Count("transcoded-not-forwarded:" + kind)
+			return
+		}
+		c.Count("accepted-triple-reached-through-conversion-path")
 	}
 	c.Count(kind + "-compared")
 	if d := before.diff(down.seen); d != "" {
